@@ -249,22 +249,27 @@ Definition chk_member (r : rule) (m : msg) : bool :=                     (* 241-
   | Some i => match m_member m with Some mi => lbeq i mi | None => false end
   | None => true
   end.
-Definition chk_destination (r : rule) (m : msg) : bool :=                (* 250-259 *)
+Definition chk_destination (r : rule) (m : msg) : bool :=                (* 250-261, after fix 8cf9b673 *)
   match r_destination r with
   | Some d => match m_destination m with
               | Some (BUnique name) => lbeq d name
-              | None => true
               | Some (BWellKnown _) => true
+              | None => false
               end
   | None => true
   end.
-Definition chk_path (r : rule) (m : msg) : bool :=                       (* 262-274 *)
+(* 271-279 after fix 8cf9b673: msg_path == path_ns || path_ns == "/" ||
+   msg_path.strip_prefix(path_ns).is_some_and(|rest| rest.starts_with('/')) *)
+Definition ns_covers (ns mp : bytes) : bool :=
+  lbeq mp ns || lbeq ns (B "/")
+  || match strip_prefix ns mp with Some (c :: _) => beq c "/" | _ => false end.
+Definition chk_path (r : rule) (m : msg) : bool :=                       (* 264-283 *)
   match r_path r with
   | Some ps => match m_path m with
                | None => false
                | Some mp => match ps with
                             | PPath p => lbeq p mp
-                            | PNamespace ns => starts_with ns mp
+                            | PNamespace ns => ns_covers ns mp
                             end
                end
   | None => true
